@@ -373,8 +373,84 @@ func c06Body(nPer int, twoWriters bool, early bool) func() {
 
 func norm(s string) string { return strings.Join(strings.Fields(s), "") }
 
+// c06BurstBody: one stack facing a peer that sends SPINE data early: nEarly datagrams arrive before the stack's
+// own handshake is over, the last handshake message and nLate more datagrams arrive back to back (all of them
+// are in the socket buffer before the read pump gets to the first).
+func c06BurstBody(server bool, nEarly, nLate int) func() {
+	return func() {
+		simrt.ClearTraceHooks()
+		a, _ := fakews.Pipe("local", "peer")
+		st := newStack("s", a, server, true, "")
+		st.C.Run()
+		simrt.RunFor(5 * time.Millisecond)
+		msgs := cliMsgs
+		if server {
+			msgs = srvMsgs
+		}
+		for _, m := range msgs[:len(msgs)-1] {
+			a.Inject(fakews.Frame{Type: fakews.BinaryMessage, Data: m})
+			simrt.RunFor(5 * time.Millisecond)
+		}
+		n := 0
+		for i := 0; i < nEarly; i++ {
+			n++
+			a.Inject(fakews.Frame{Type: fakews.BinaryMessage, Data: shipx.Data(shipx.Datagram(n))})
+			simrt.RunFor(5 * time.Millisecond)
+		}
+		simrt.Mark()
+		a.Inject(fakews.Frame{Type: fakews.BinaryMessage, Data: msgs[len(msgs)-1]})
+		for i := 0; i < nLate; i++ {
+			n++
+			a.Inject(fakews.Frame{Type: fakews.BinaryMessage, Data: shipx.Data(shipx.Datagram(n))})
+		}
+		simrt.RunFor(time.Second)
+		var got []string
+		complete := false
+		for _, e := range st.L.Evs {
+			if e.Kind == "state" && e.N == 38 {
+				complete = true
+			}
+			if e.Kind == "payload" {
+				if !complete {
+					simrt.Fail("C06|delivered-before-completion", "a payload reached the application before the handshake was reported complete")
+				}
+				got = append(got, e.Arg)
+			}
+		}
+		if stt, _ := st.C.ShipHandshakeState(); uint(stt) != 38 {
+			simrt.Outcome(fmt.Sprintf("not completed (%s)", shipx.StateName(stt)))
+			return
+		}
+		if len(got) != n {
+			simrt.Fail("C06|lost-or-duplicated", "%d datagrams arrived (%d before completion), %d were delivered: %v", n, nEarly, len(got), got)
+		}
+		for i, g := range got {
+			if i < n && norm(g) != norm(shipx.DatagramPlain(i+1)) {
+				simrt.Fail("C06|reordered", "datagram #%d delivered is %s; arrival order was 1..%d with %d of them before completion (delivered: %v)", i+1, g, n, nEarly, got)
+				break
+			}
+		}
+		simrt.Outcome(fmt.Sprintf("delivered=%d", len(got)))
+	}
+}
+
 func c06Scenarios(r *hx.Run) []hx.Scenario {
 	var out []hx.Scenario
+	for _, server := range []bool{true, false} {
+		for _, ne := range []int{0, 1, 2} {
+			for _, nl := range []int{1, 2} {
+				if !r.Thorough() && ne == 0 && nl == 2 {
+					continue
+				}
+				bpb := 1
+				if r.Thorough() {
+					bpb = 2
+				}
+				out = append(out, hx.Scenario{Name: fmt.Sprintf("c06:burst:server=%v,early=%d,late=%d", server, ne, nl), Body: c06BurstBody(server, ne, nl),
+					Bounds: simrt.B(bpb, 0, 0), Cfg: simrt.Config{MaxSteps: 100000, BranchAfterMark: true}})
+			}
+		}
+	}
 	pb := 1
 	if r.Thorough() {
 		pb = 2
